@@ -1,7 +1,7 @@
 """Small repository-specific lints shared by several properties."""
 import ast
 
-from .core import src, qualname_of
+from .core import src, qualname_of, enclosing_function
 
 LANG_CALLS = ('get_global_language',)
 
@@ -159,3 +159,69 @@ def r_module_state(repo, rep, R, rels, consequence, only=None):
                                       '%s changes `%s` (%s), an object created once in the body of class %s and shared by all its instances: %s'
                                       % (qualname_of(f), hit[0], hit[1], cls.name, consequence))
     return n_shared
+
+
+def oneshot_hits(tree):
+    """-> (n bindings inspected, [(fn, name, assign node, loop node, first use node)])"""
+    MAKERS = {'enumerate', 'iter', 'zip', 'map', 'filter', 'reversed', 'itertools.chain', 'chain', 'itertools.islice', 'islice'}
+    n = 0
+    hits = []
+    for fn in [f for f in ast.walk(tree) if isinstance(f, ast.FunctionDef)]:
+        for a in ast.walk(fn):
+            if not (isinstance(a, ast.Assign) and len(a.targets) == 1 and isinstance(a.targets[0], ast.Name)) or enclosing_function(a) is not fn:
+                continue
+            v = a.value
+            if not (isinstance(v, ast.GeneratorExp) or (isinstance(v, ast.Call) and src(v.func) in MAKERS)):
+                continue
+            name = a.targets[0].id
+            n += 1
+            rebinds = [x for x in ast.walk(fn) if isinstance(x, ast.Assign) and x is not a and any(isinstance(t, ast.Name) and t.id == name for t in x.targets)]
+            if rebinds:
+                continue
+            for loop in [l for l in ast.walk(fn) if isinstance(l, (ast.For, ast.While)) and enclosing_function(l) is fn]:
+                inside = any(x is a for x in ast.walk(loop))
+                if inside or loop.lineno < a.lineno:
+                    continue
+                body_nodes = [y for s_ in loop.body for y in ast.walk(s_)]
+                uses = [y for y in body_nodes if isinstance(y, ast.Name) and y.id == name and isinstance(y.ctx, ast.Load)]
+                if uses:
+                    hits.append((fn, name, a, loop, uses[0]))
+                    break
+    return n, hits
+
+
+ONESHOT_EXAMPLE = """
+def render(sentences):
+    out = []
+    for trees in sentences:
+        tokens = enumerate(trees[0].tokens)
+        fresh = list(enumerate(trees[0].tokens))
+        for tree in trees:
+            out.append(walk(tree, tokens))
+            out.append(walk(tree, fresh))
+    return out
+"""
+
+
+def r_oneshot_iterators(repo, rep, R, rels, consequence):
+    """an iterator can be walked once: one that is created before a loop and drawn from inside the loop's body (next(),
+    a nested for, handed to a callee) is exhausted after the first round -- the second n-best tree / sentence gets
+    nothing, or StopIteration.  -> number of iterator bindings inspected.  (The expected count on the reference tree is
+    zero, so the rule first has to find the one instance of its embedded example.)"""
+    from .core import attach_parents, AnalysisError
+    ex = ast.parse(ONESHOT_EXAMPLE)
+    attach_parents(ex)
+    n_ex, hits_ex = oneshot_hits(ex)
+    if [(h[1], h[4].lineno) for h in hits_ex] != [('tokens', 8)]:
+        raise AnalysisError('embedded example of the one-shot iterator rule: expected the use of `tokens` on line 8, found %s' % [(h[1], h[4].lineno) for h in hits_ex])
+    rep.ok(R, 'sa/lints.py ONESHOT_EXAMPLE', 'the rule flags an enumerate(..) created per sentence and consumed per tree, and not the list built from it')
+    n = 0
+    for rel in rels:
+        mod = repo.module(rel)
+        k, hits = oneshot_hits(mod.tree)
+        n += k
+        for fn, name, a, loop, use in hits:
+            rep.violation(R, '%s:%s %s' % (rel, use.lineno, qualname_of(fn)), '%s:%s:one-shot:%s' % (rel, qualname_of(fn), name),
+                          '`%s` is an iterator (%s) created once at line %d and drawn from in every round of the loop at line %d: it is used up in the first round -- %s'
+                          % (name, src(a.value)[:50], a.lineno, loop.lineno, consequence))
+    return n
